@@ -1598,6 +1598,41 @@ def rule_EH(run: Run) -> RuleResult:
                                                           and e.target is not None and e.target.key() == ps_[0] for e in p.events) for p in kps) \
             and any(astu.short_name(c) == "__init__" and len(c.args) == 2 and ast.unparse(c.args[1]) == ps_[1] for c in astu.calls_in(init))
     res.add("labrea.exceptions.KeyNotFoundError.__init__:stores key, passes source on", ok, kn.module.relpath, init.lineno if init else 0, "self.key = key; super().__init__(…, source)", nec)
+    # validate / keys / explain requests are not wrapped the way evaluate requests are: what an expression or an effect raises there itself
+    # reaches the caller as it is — and Coalesce, Switch and Option step over a part that cannot be used by catching EvaluationError.  So
+    # every exception the library constructs and raises in these operations (private helpers followed) is an EvaluationError
+    from .interp import exc_is_subclass
+    import re as _re
+    n_r = 0
+    seen_r = {}
+    for ci in repo.classes.values():
+        if ci.module.name.startswith("labrea.mypy") or not (ci.is_subclass_of("Evaluatable") or ci.is_subclass_of("Effect")):
+            continue
+        for op in ("validate", "keys", "explain"):
+            fn_ = ci.methods.get(op)
+            if fn_ is None:
+                continue
+            try:
+                ps_o = analyse_function(Ctx(repo), ci.module, fn_, cls=ci)
+            except AnalysisError:
+                continue
+            for p in ps_o:
+                for e in p.events:
+                    if e.kind != "raise" or e.depth != 0 or e.target is None:
+                        continue
+                    m_ = _re.match(r"new:([A-Za-z_][A-Za-z_0-9]*)\(", e.target.key())
+                    if not m_:
+                        continue
+                    n_r += 1
+                    good = exc_is_subclass(repo, m_.group(1), "EvaluationError")
+                    k_ = (ci.qualname, op, m_.group(1))
+                    if k_ not in seen_r:
+                        seen_r[k_] = (good is not False, e.line)
+    for (q_, op, en_), (good, line_) in sorted(seen_r.items()):
+        res.add(f"{q_}.{op}:raises {en_}, an EvaluationError", good, repo.classes[q_].module.relpath if q_ in repo.classes else f, line_,
+                "" if good else f"{en_} is not an EvaluationError: a Coalesce / Switch / Option that tries this part and would step over it (except EvaluationError) fails instead", nec)
+    if n_r < 10:
+        raise AnalysisError(f"R-EH: only {n_r} raise sites found in validate/keys/explain")
     return res
 
 
